@@ -130,6 +130,9 @@ Eval(e, env, S) ==
         LET r2 == Eval(x.args[2], env, r1.s) IN
         IF r2.s.err # "" THEN r2 ELSE
         IF r1.v[1] # "i" \/ r2.v[1] # "i" THEN [v |-> NoneV, s |-> [r2.s EXCEPT !.err = "TypeError"]]
+        \* TLC integers are 32 bit: executions whose values leave +-30000 are not explored further ("big" is not canonical)
+        ELSE IF r1.v[2] > 30000 \/ r1.v[2] < -30000 \/ r2.v[2] > 30000 \/ r2.v[2] < -30000
+        THEN [v |-> NoneV, s |-> [r2.s EXCEPT !.err = "big"]]
         ELSE LET a == r1.v[2]  b == r2.v[2] IN
              [v |-> CASE x.kind = "add" -> IntV(a + b) [] x.kind = "sub" -> IntV(a - b) [] x.kind = "mul" -> IntV(a * b)
                       [] x.kind = "lt" -> BoolV(a < b) [] x.kind = "le" -> BoolV(a <= b) [] x.kind = "gt" -> BoolV(a > b)
@@ -163,7 +166,7 @@ S0(ch) == [log |-> log, di |-> 1, ch |-> ch, err |-> "", used |-> <<>>, rd |-> {
 \* the choices offered to node n: nch decision slots
 Choices(n) == [1..ND(n).nch -> 0..MaxTrip]
 \* a choice vector is canonical iff it was consumed legally and its unused tail is 0
-Canon(r, ch) == /\ r.s.err \notin {"ood", "bad"}
+Canon(r, ch) == /\ r.s.err \notin {"ood", "bad", "big"}
                 /\ \A j \in 1..Len(ch) : j >= r.s.di => ch[j] = 0
 
 (* ---- frames --------------------------------------------------------------- *)
